@@ -269,6 +269,11 @@ func (c *Ctx) ContributionRules(prop string) {
 			if ok1 && ok2 && e1.Tuple == e2.Tuple {
 				okPair = true
 			}
+			// the instance checking the shares it computed itself against its own vector (a list made in this function):
+			// nothing received is involved
+			if !okPair && locallyMadeList(a[vVec], 0) {
+				okPair = true
+			}
 			if !okPair {
 				c.R.Fail(rule1, Fn(fn)+":pair", c.Pos(ci), "share and verification vector given to the contribution check do not come from one and the same message", "check(share, vector) of one contribution", nil)
 			}
@@ -1209,4 +1214,44 @@ func (c *Ctx) StoredBeforeSuccess(prop string) {
 			c.R.OK(rule, Fn(F), c.P.FuncPos(F), name+" reports success only below the nil-error edge of the account-storing call")
 		}
 	}
+}
+
+// locallyMadeList: the slice value is a make of this function, or grows from one by appends (through phis).
+func locallyMadeList(v ssa.Value, d int) bool {
+	if d > 8 {
+		return false
+	}
+	switch x := v.(type) {
+	case *ssa.MakeSlice:
+		return true
+	case *ssa.Slice:
+		return locallyMadeList(x.X, d+1)
+	case *ssa.Call:
+		if isBuiltin(x, "append") {
+			return locallyMadeList(x.Call.Args[0], d+1)
+		}
+	case *ssa.Phi:
+		seenMake := false
+		for _, e := range x.Edges {
+			if e == ssa.Value(x) {
+				continue
+			}
+			if call, ok := e.(*ssa.Call); ok && isBuiltin(call, "append") {
+				// the append of the loop: its first argument is this list again (or the body's view of it)
+				if in, isPhi := call.Call.Args[0].(*ssa.Phi); isPhi && (in == x || d < 6) {
+					if in != x && !locallyMadeList(in, d+3) {
+						return false
+					}
+					seenMake = true
+					continue
+				}
+			}
+			if !locallyMadeList(e, d+1) {
+				return false
+			}
+			seenMake = true
+		}
+		return seenMake
+	}
+	return false
 }
